@@ -4,6 +4,7 @@
 package c05
 
 import (
+	"sync"
 	"fmt"
 	"os"
 	"strconv"
@@ -73,6 +74,11 @@ func corpus(name string) (input string, chain []exchange) {
 		return "https://%H0%%P%/actor", []exchange{{0, "/actor", "HTTP/1.1 200 OK\r\n" + ct + "\r\n" + actor}}
 	case "actor-trailing-newline":
 		return "https://%H0%%P%/actor", []exchange{{0, "/actor", "HTTP/1.1 200 OK\r\n" + ct + "Server: x\r\n\r\n" + actor + "\r\n"}}
+	case "actor-length-3MiB":
+		// the announced length is the peer's word: it buys no extra time
+		return "https://%H0%%P%/actor", []exchange{{0, "/actor", "HTTP/1.1 200 OK\r\n" + ct + "Content-Length: 3145728\r\n\r\n" + actor}}
+	case "actor-length-absurd":
+		return "https://%H0%%P%/actor", []exchange{{0, "/actor", "HTTP/1.1 200 OK\r\nContent-Length: 99999999999\r\n" + ct + "\r\n" + actor}}
 	case "collection":
 		coll := `{"id":"https://%H0%%P%/outbox","type":"OrderedCollection","totalItems":40,"orderedItems":[` + items(40) + `]}`
 		return "https://%H0%%P%/outbox", []exchange{{0, "/outbox", "HTTP/1.1 200 OK\r\n" + ct + "\r\n" + coll}}
@@ -99,7 +105,7 @@ func corpus(name string) (input string, chain []exchange) {
 	panic("harness: unknown corpus " + name)
 }
 
-var corpora = []string{"actor", "actor-trailing-newline", "collection", "redirect1", "redirect2", "webfinger", "note-with-author"}
+var corpora = []string{"actor", "actor-length-3MiB", "actor-length-absurd", "actor-trailing-newline", "collection", "redirect1", "redirect2", "webfinger", "note-with-author"}
 
 // fixP inserts the case's path prefix; %PNUM% (its number) makes the webfinger query unique per case,
 // so the process-wide response cache cannot answer for an earlier case.
@@ -387,4 +393,85 @@ func TestProp(t *testing.T) {
 	}, check)
 }
 
-func TestReplay(t *testing.T) { vrep.Replay(t, vrep.ReplayCheckName(), check) }
+// FanCase: N documents on silent or stalling peers fetched at the same time (as preloading a timeline does): every one
+// of the fetches ends with an error within the bound of a single fetch - waiting for one another buys no time either.
+type FanCase struct {
+	N     int    `json:"n"`
+	Kind  string `json:"kind"` // stall | trickle
+	At    int    `json:"at"`
+	Chain bool   `json:"chain,omitempty"` // each document is reached through a redirect
+}
+
+func checkFan(c FanCase) vrep.Result {
+	T := timeoutT()
+	prefix := sim.NewPrefix()
+	sim.ClearRoutes()
+	classes := []string{"fan:" + c.Kind, fmt.Sprintf("fan-n:%d", c.N/8*8)}
+	doc := `{"type":"Person","name":"Alice","preferredUsername":"alice"}`
+	hops := 1
+	for i := 0; i < c.N; i++ {
+		r := &vsim.Route{Raw: "HTTP/1.1 200 OK\r\n" + ct + "\r\n" + doc}
+		if c.Kind == "trickle" {
+			r.Fault = &vsim.Fault{Kind: "trickle", At: c.At, EveryMs: int(T / 3 / time.Millisecond), HoldMs: int(6 * T / time.Millisecond)}
+		} else {
+			r.Fault = &vsim.Fault{Kind: "stall", At: c.At, HoldMs: int(12 * T / time.Millisecond)}
+		}
+		sim.Set(i%3, fmt.Sprintf("%s/doc%d", prefix, i), r)
+		if c.Chain {
+			hops = 2
+			sim.Set((i+1)%3, fmt.Sprintf("%s/via%d", prefix, i), vsim.Redirect(302, fmt.Sprintf("https://%%H%d%%%s/doc%d", i%3, prefix, i)))
+		}
+	}
+	limit := time.Duration(hops+1)*3*T + time.Second
+	type outcome struct {
+		failed  bool
+		elapsed time.Duration
+	}
+	outs := make([]outcome, c.N)
+	var wg sync.WaitGroup
+	start := time.Now()
+	for i := 0; i < c.N; i++ {
+		wg.Add(1)
+		go func(i int) {
+			defer wg.Done()
+			in := fmt.Sprintf("https://%%H%d%%%s/doc%d", i%3, prefix, i)
+			if c.Chain {
+				in = fmt.Sprintf("https://%%H%d%%%s/via%d", (i+1)%3, prefix, i)
+			}
+			result := pub.FetchUserInput(sim.Expand(in, -1, prefix))
+			_, failed := result.(*pub.Failure)
+			outs[i] = outcome{failed, time.Since(start)}
+		}(i)
+	}
+	done := make(chan struct{})
+	go func() { wg.Wait(); close(done) }()
+	select {
+	case <-done:
+	case <-time.After(10*T + 4*limit):
+		return vrep.Result{Classes: classes, Err: fmt.Errorf("%d simultaneous fetches of %sing peers had not all returned after %v (timeout_seconds is %v): hang", c.N, c.Kind, 10*T+4*limit, T)}
+	}
+	for i, o := range outs {
+		if !o.failed {
+			return vrep.Result{Classes: classes, Err: fmt.Errorf("fetch %d of %d from a peer that %ss at byte %d produced an item", i, c.N, c.Kind, c.At)}
+		}
+		if o.elapsed > limit {
+			return vrep.Result{Classes: classes, Err: fmt.Errorf("fetch %d of %d simultaneous fetches of %sing peers took %v, more than %v = (hops+1) x 3 x timeout + 1 s", i, c.N, c.Kind, o.elapsed.Round(time.Millisecond), limit)}
+		}
+	}
+	return vrep.Result{Classes: classes, Nontrivial: c.N >= 8}
+}
+
+func TestFan(t *testing.T) {
+	vrep.Run(t, "Fan", true, func(t *rapid.T) FanCase {
+		return FanCase{N: rapid.SampledFrom([]int{2, 5, 8, 9, 16, 24, 32, 48}).Draw(t, "n"), Kind: rapid.SampledFrom([]string{"stall", "stall", "trickle"}).Draw(t, "kind"),
+			At: rapid.SampledFrom([]int{0, 0, 5, 17, 40, 60}).Draw(t, "at"), Chain: rapid.IntRange(0, 3).Draw(t, "chain") == 2}
+	}, checkFan)
+}
+
+func TestReplay(t *testing.T) {
+	if vrep.ReplayCheckName() == "Fan" {
+		vrep.Replay(t, "Fan", checkFan)
+		return
+	}
+	vrep.Replay(t, vrep.ReplayCheckName(), check)
+}
